@@ -854,7 +854,9 @@ func runIpamLoops(c *Ctx, focus string) {
 	n := c.Scale(64, 320)
 	// past failures first: lost synchronisation after two conflicts in a row (fixed 6131003); failed roll-back delete whose
 	// record is lost with a conflicting status write (known finding)
-	seeds := []uint64{13257447658396619023, 187150356967577528}
+	// … and an address the cloud has (assign timed out after taking effect) on an interface whose record has no address of that
+	// family left: the full synchronisation must learn it (fixed 7563783)
+	seeds := []uint64{13257447658396619023, 187150356967577528, 2798650243160690182}
 	for i := 0; i < n; i++ {
 		seeds = append(seeds, c.R.U64())
 	}
